@@ -160,6 +160,13 @@ impl EncodingBuilder {
             // Calculate entry size: 1 (key_count) + 5 (file_size) + 16 (content_key) + 16 * key_count (encoding_keys)
             let entry_size = 1 + 5 + 16 + (16 * entry_data.encoding_keys.len());
 
+            // An entry larger than a page (or with more keys than the one-byte key
+            // count holds) cannot be stored; writing it would overflow the page buffer
+            // and produce a file the parser rejects as a whole
+            if entry_size > page_size || entry_data.encoding_keys.len() > usize::from(u8::MAX) {
+                return Err(EncodingError::InvalidPageSize(entry_size));
+            }
+
             // Check if adding this entry would exceed page size
             if current_page_size + entry_size > page_size && !current_page_entries.is_empty() {
                 // Finalize current page
